@@ -567,6 +567,18 @@ impl VisitMut for Norm {
         // post-order rewrites
         match e {
             Expr::ForLoop(f) => {
+                // N7b: `for &x in E { B }` => `for x in E { let x = *x; B }`
+                if let Pat::Reference(pr) = &*f.pat {
+                    if pr.mutability.is_none() {
+                        if let Pat::Ident(pi) = &*pr.pat {
+                            let id = pi.ident.clone();
+                            let sp = f.for_token.span;
+                            *f.pat = parse_quote!(#id);
+                            f.body.stmts.insert(0, parse_quote!(let #id = *#id;));
+                            self.log("N7b-for-ref-pattern", sp);
+                        }
+                    }
+                }
                 if let Expr::Reference(r) = &*f.expr {
                     let inner = &r.expr;
                     let sp = f.for_token.span;
@@ -624,6 +636,33 @@ impl VisitMut for Norm {
                         if self.diverge {
                             mc.method = Ident::new("hq_unwrap", sp);
                             self.log("N14-unwrap-diverge", sp);
+                        }
+                    }
+                    "unwrap_or_else" if mc.args.len() == 1 && closure_only_panics(&mc.args[0]) => {
+                        // definitional: a closure that only panics makes unwrap_or_else an unwrap
+                        self.site("unwrap", sp);
+                        mc.args.clear();
+                        if self.diverge {
+                            mc.method = Ident::new("hq_unwrap", sp);
+                            self.log("N14-unwrap_or_else-panic-diverge", sp);
+                        } else {
+                            mc.method = Ident::new("unwrap", sp);
+                            self.log("N3-unwrap_or_else-panic", sp);
+                        }
+                    }
+                    "collect" if mc.args.is_empty() && is_copied_iter(&mc.receiver) => {
+                        // N8h: ITER.copied().collect() (into a Vec) => push loop
+                        if let Expr::MethodCall(inner) = &*mc.receiver {
+                            let it = &inner.receiver;
+                            let acc = self.fresh("vec");
+                            let x = self.fresh("x");
+                            let ne: Expr = parse_quote!({
+                                let mut #acc = Vec::new();
+                                for #x in #it { #acc.push(*#x); }
+                                #acc
+                            });
+                            *e = ne;
+                            self.log("N8h-copied-collect-to-loop", sp);
                         }
                     }
                     "expect" if mc.args.len() == 1 => {
@@ -792,6 +831,22 @@ impl VisitMut for Norm {
                     m.arms = new_arms;
                     self.log("N5-split-or-pattern", sp);
                 }
+                // N6: `P if g => B, _ => W` (guard arm directly before the final wildcard arm, scrutinee `&mut e`)
+                //     => `P => if g { B } else { W }, _ => W`
+                let n = m.arms.len();
+                if n >= 2 && matches!(&*m.expr, Expr::Reference(r) if r.mutability.is_some()) {
+                    let last_is_wild = matches!(&m.arms[n - 1].pat, Pat::Wild(_)) && m.arms[n - 1].guard.is_none();
+                    if last_is_wild && m.arms[n - 2].guard.is_some() {
+                        let w = m.arms[n - 1].body.clone();
+                        let arm = &mut m.arms[n - 2];
+                        let (_, g) = arm.guard.take().unwrap();
+                        let b = arm.body.clone();
+                        let nb: Expr = parse_quote!(if #g { #b } else { #w });
+                        *arm.body = nb;
+                        let sp = m.match_token.span;
+                        self.log("N6-guard-into-body", sp);
+                    }
+                }
             }
             _ => {}
         }
@@ -819,6 +874,42 @@ pub fn map_vec_type(t: &Type) -> Option<Type> {
         }
     }
     None
+}
+
+fn is_copied_iter(e: &Expr) -> bool {
+    if let Expr::MethodCall(mc) = e {
+        let n = mc.method.to_string();
+        return (n == "copied" || n == "cloned") && mc.args.is_empty();
+    }
+    false
+}
+
+fn closure_only_panics(e: &Expr) -> bool {
+    fn is_panic_expr(e: &Expr) -> bool {
+        match e {
+            Expr::Macro(m) => {
+                let n = m.mac.path.segments.last().map(|s| s.ident.to_string()).unwrap_or_default();
+                n == "panic" || n == "unreachable" || n == "__hq_unreachable"
+            }
+            Expr::Call(c) => matches!(&*c.func, Expr::Path(p) if p.path.is_ident("hq_panic")),
+            Expr::Block(b) => {
+                b.block.stmts.len() == 1
+                    && match &b.block.stmts[0] {
+                        Stmt::Expr(e, _) => is_panic_expr(e),
+                        Stmt::Macro(m) => {
+                            let n = m.mac.path.segments.last().map(|s| s.ident.to_string()).unwrap_or_default();
+                            n == "panic" || n == "unreachable" || n == "__hq_unreachable"
+                        }
+                        _ => false,
+                    }
+            }
+            _ => false,
+        }
+    }
+    if let Expr::Closure(c) = e {
+        return c.inputs.is_empty() && is_panic_expr(&c.body);
+    }
+    false
 }
 
 fn simplify_parens(e: Expr) -> Expr {
